@@ -1211,6 +1211,12 @@ def real_policy_map(c):
                          "the publishing attach always fails here and only start-ups that fail are observed; a connect is not in "
                          "flight across an attach / detach step")
     realmaps.attach_order(c)
+    # scope: the cgroup the diverting hook is attached to covers every cgroup2 sub-tree mounted in the agent's namespace
+    # (design: spec/CgroupScope.tla; every mount table of gen/CgroupScopeGen set up for real, the real resolver, CgroupScopeTrace)
+    c.assumptions.append("attach-scope part: the first cgroup2 mount of the agent's namespace is the system mount and shows what any "
+                         "later mount shows (EnvOK of spec/CgroupScope.tla); the resolver get_cgroup2_mount_path (+ configured "
+                         "fallback) is run for real, the cgroup attach itself is not (the kprobe attach in front of it fails here)")
+    realmaps.attach_scope(c)
 
 
 def replay(c, path):
